@@ -905,7 +905,7 @@ Proof.
                   ecache (req_store mid (req_handle t mid tok ro b a2) (cache s2)) /\
                   map erase_wire (o_out (obs_of_reply true (hd_reply (req_handle t mid tok ro b a1)))) =
                   map erase_wire (o_out (obs_of_reply true (hd_reply (req_handle t mid tok ro b a2))))).
-  { destruct (handle_sim t mid tok ro b a1 a2 Hp) as [Hs Hr]. unfold req_store. rewrite Hs.
+  { destruct (handle_sim t mid tok ro b a1 a2 Hp) as [Hs Hr]. unfold req_store, store_reply. rewrite Hs.
     destruct (hd_reply (req_handle t mid tok ro b a1)) as [r1|], (hd_reply (req_handle t mid tok ro b a2)) as [r2|];
       cbn [option_map] in Hr; try discriminate.
     - injection Hr as Hr. cbn [obs_of_reply o_out map]. rewrite Hr. split; [|reflexivity].
